@@ -195,6 +195,47 @@ Theorem C11_cold_start_any_address :
 Proof. exact cold_start_any_address. Qed.
 Print Assumptions C11_cold_start_any_address.
 
+(* The client's environment at a cold start: whatever XDG_RUNTIME_DIR and HOME are (unset, usable, stale,
+   unwritable), as long as the temporary directory is usable (or TMPDIR unset) the client starts the server and
+   goes on to connect, for every address. *)
+Theorem C11_cold_start_stale_environment :
+  forall tmp xdg home (a : saddr) later,
+    tmp <> Some DirUnusable ->
+    connect_with_retry later = true ->
+    connect_or_start ARefused
+      (spawn_report {| e_tmpdir := tmp; e_xdg_runtime := xdg; e_home := home |} (report_of_started_server a)) later
+    = None.
+Proof. exact cold_start_stale_environment. Qed.
+Print Assumptions C11_cold_start_stale_environment.
+
+(* ... and an unusable temporary directory is a non-zero sccache error, never anything else. *)
+Theorem C11_unusable_tmpdir_is_an_error :
+  forall xdg home rep later,
+    connect_or_start ARefused
+      (spawn_report {| e_tmpdir := Some DirUnusable; e_xdg_runtime := xdg; e_home := home |} rep) later
+    = Some ESpawnFailed.
+Proof. exact unusable_tmpdir_is_an_error. Qed.
+Print Assumptions C11_unusable_tmpdir_is_an_error.
+
+(* A result that does not fit into one frame (cap = max_frame_length) cannot be sent: the connection drops after
+   the acknowledgement and the client compiles locally — its own run delivers status and complete output. *)
+Theorem C11_oversized_result_falls_back :
+  forall opq ignore_io cap f local,
+    cap < blen (encode_finished f) ->
+    client opq ignore_io (server_reply cap f) Eof = RunLocally LEofAfterAck /\
+    exit_code (client opq ignore_io (server_reply cap f) Eof) local = local.
+Proof. exact oversized_result_falls_back. Qed.
+Print Assumptions C11_oversized_result_falls_back.
+
+(* Whole or not at all: for every frame limit and every result, a CompileFinished the client acts on is exactly
+   the one the compile produced (same status, same stdout and stderr, byte for byte) — never a clipped one. *)
+Theorem C11_result_whole_or_not_at_all :
+  forall opq ignore_io cap f f',
+    wf_finished f -> blen (encode_finished f) < 4294967296 ->
+    client opq ignore_io (server_reply cap f) Eof = ReturnFinished f' -> f' = f.
+Proof. exact result_whole_or_not_at_all. Qed.
+Print Assumptions C11_result_whole_or_not_at_all.
+
 (* ---------- well-formed but unservable requests do not disturb later requests ---------- *)
 
 (* The compiler map is shared by all connections.  For EVERY history of compile requests (any connections, any
@@ -285,3 +326,15 @@ Example ex_non_canonical_socket_path :
   connect_or_start ARefused (report_of_started_server (UdsPath [47; 116; 47; 108; 47; 46; 46; 47; 115])) [AOk] = None /\
   connect_or_start ARefused (SOk false) [AOk] = Some EWrongAddr.
 Proof. vm_compute. split; reflexivity. Qed.
+
+Example ex_result_at_the_limit :
+  (* encode_finished ex_fin is 33 bytes *)
+  blen (encode_finished ex_fin) = 33 /\
+  client ex_opq false (server_reply 33 ex_fin) Eof = ReturnFinished ex_fin /\
+  client ex_opq false (server_reply 32 ex_fin) Eof = RunLocally LEofAfterAck.
+Proof. vm_compute. repeat split; reflexivity. Qed.
+
+Example ex_stale_xdg_runtime_dir :
+  spawn_report {| e_tmpdir := None; e_xdg_runtime := Some DirUnusable; e_home := Some DirUnusable |} (SOk true) = SOk true /\
+  spawn_report {| e_tmpdir := Some DirUnusable; e_xdg_runtime := None; e_home := None |} (SOk true) = SSpawnErr.
+Proof. split; reflexivity. Qed.
